@@ -208,6 +208,22 @@ def interpret(data, expect):
     return v
 
 
+SPECIAL_NAMES = ["radio+ble", "my app", "top@v2", "sec dom", "sys:ctrl", "r\u00e4dio", "a&b", "x=y", "p%20q", "semi;colon",
+                 "q?r", "tilde~", "ex!cl", "(paren)", "\u4e2d\u6587"]
+IDENT_NAMES = ["ipc_radio-1.2", "my_app.v2", "top-rc1", "A", "img0", "hci_ipc", "cpuapp.signed"]
+
+
+def image_names(r, defaults):
+    """image (= dependency / file) names: the defaults, identifier-like custom names, or names with characters that a
+    URI / YAML / path encoder could touch; they stay valid YAML plain scalars and file names"""
+    c = r.random()
+    if c < 0.5:
+        return "default", dict(defaults)
+    pool = IDENT_NAMES if c < 0.75 else SPECIAL_NAMES
+    picks = r.sample(pool, len(defaults))
+    return ("identifier-like" if c < 0.75 else "special-characters"), dict(zip(sorted(defaults), picks))
+
+
 def run_config(rec, cfg, k, idx):
     import ncs.build as nb
     r = common.case_rng(rec.seed, ID, f"{idx}/{k}")
@@ -224,21 +240,25 @@ def run_config(rec, cfg, k, idx):
             if cfg["custom"]:
                 names = {"radio": ("radio.example", "acme_rad"), "application": ("acme.org", "acme_app")}
             ids = []
+            style, img_names = image_names(r, IMAGES)
+            rec.count("image-names:" + style)
             for img in ("radio", "application", "top"):
                 if img in cfg["images"]:
-                    data[img] = {"name": IMAGES[img], "config": {}}
-                    E = make_child(rec, r, art + IMAGES[img] + ".suit", wd)
+                    data[img] = {"name": img_names[img], "config": {}}
+                    E = make_child(rec, r, art + img_names[img] + ".suit", wd)
                     if E is None:
                         rec.count("child_create_refused")
                         return
-                    children["#" + IMAGES[img]] = E
+                    children["#" + img_names[img]] = E
                     ids.append(cid("nordicsemi.com", "nRF54H20_nordic_top") if img == "top" else cid(*names[img]))
             own = cid("acme.org", "acme_root") if cfg["custom"] else cid("nordicsemi.com", "nRF54H20_sample_root")
             template = ROOT_T
             vkeys = ("APP_ROOT_SEQ_NUM", "APP_ROOT_VERSION")
         else:
             data["sysbuild"] = {"name": "sysbuild", "config": {}}
-            for img, nm in (("secdom", "secdom_img"), ("sysctrl", "sysctrl_img")):
+            style, img_names = image_names(r, {"secdom": "secdom_img", "sysctrl": "sysctrl_img"})
+            rec.count("image-names:" + style)
+            for img, nm in sorted(img_names.items()):
                 data[img] = {"name": nm, "config": {}}
                 E = make_child(rec, r, art + nm + ".suit", wd)
                 if E is None:
